@@ -59,3 +59,63 @@ def stack_discipline(repo):
 def functions_under_contract(pid, names, reg, repo):
     import contracts_map
     return contracts_map.functions(pid, names, repo)
+
+# ----------------------------------------------------------------------------------------------
+# C13 frame scan: every interior-mutability construct in the library, compared with the reviewed list.
+# A parser can carry state from one parse to the next only through such a site.
+# ----------------------------------------------------------------------------------------------
+FRAME_PATTERNS = r"\bCell<|\bRefCell\b|\bUnsafeCell\b|static\s+mut\b|\bAtomic\w+|\bOnceCell\b|thread_local!|\bMutex\b|\bRwLock\b|\bOnceLock\b|lazy_static"
+FRAME_REVIEWED = {
+    # file -> substrings of reviewed lines (what they are)
+    "src/container.rs": ["Container<T> for Cell<C>", "Container<T> for RefCell<C>", "RefCell::new(C::with_capacity(n))", "Rc<UnsafeCell<C::Uninit>>", "Rc::new(UnsafeCell::new(C::uninit()))",
+                         "Arc<UnsafeCell<C::Uninit>>", "Arc::new(UnsafeCell::new(C::uninit()))"],  # output containers (values), not parser state; Rc/Arc impls are commented out
+    "src/lib.rs": ["cell::{Cell, RefCell},"],  # import
+    "src/recursive.rs": ["struct OnceCell<T>(core::cell::Cell<Option<T>>);", "impl<T> OnceCell<T> {", "inner: OnceCell<Box<DynParser<", "inner: OnceCell::new(),"],  # set once at definition time (proved: C12)
+}
+
+
+def frame_scan(repo):
+    """-> (sites, unreviewed)"""
+    sites, unreviewed = [], []
+    src = os.path.join(repo, "src")
+    for fn in sorted(os.listdir(src)):
+        if not fn.endswith(".rs"):
+            continue
+        in_hook = False
+        for i, line in enumerate(open(os.path.join(src, fn), errors="replace"), 1):
+            s = line.strip()
+            if s.startswith("//"):
+                continue
+            if re.search(FRAME_PATTERNS, line):
+                rel = f"src/{fn}"
+                sites.append(f"{rel}:{i}: {s[:100]}")
+                if not any(k in line for k in FRAME_REVIEWED.get(rel, [])):
+                    unreviewed.append(f"{rel}:{i}: {s[:100]}")
+    return sites, unreviewed
+
+
+EXPLAIN.update({
+    "C01": "obligations = tagged contract assertions (C01/...) of the harnesses listed, each a loop-free proof over symbolic input length, entry state and child behaviour; bounded harnesses listed separately",
+    "C20": "obligations = 'failure leaves a pending error' postconditions (C20/...) plus one 'every automatic Kani check passes' obligation per harness (panics, overflow, bounds, pointer validity in the code under contract)",
+})
+UNCOVERED.update({
+    "C01": ["tuple arities > 3 of choice/group (same macro body)", "any_ref / select_ref (need a borrowing input; same code shape as any / select)", "todo() (panics by design)", "unwrapped() (panics by design on None/Err)"],
+    "C02": ["drivers are bounded (<= 2 items): the unbounded statement is carried by the step contracts + lemma_count", "IntoIter / Flatten iterable adaptors", "String containers (String::push is std)"],
+    "C03": ["lazy(): bounded to 2 trailing tokens", "the identity of the primary error at top level is compared natively only (reading the error buffer is out of CBMC's reach)"],
+    "C04": ["to_slice/ignored etc. are compared with their value-building form through a common specification, not by a two-run product"],
+    "C05": ["error list contents compared by length under CBMC", "recovery inside folds: by composition only"],
+    "C06": ["internals of Rich::merge_expected_found / replace_expected_found / Simple / Cheap are not proved (only their contract use)", "filter(): found token of a rejection is not asserted (the library reports none)"],
+    "C07": ["foldr_with per-item spans", "IterInput/MappedInput empty-match clause is a recorded finding", "Stream/IoInput slices n/a"],
+    "C08": ["nested_delimiters (composition of proved combinators)", "skip strategies bounded to 2 rounds"],
+    "C09": ["pratt_go loop bounded (2 operands, stubs emit nothing)", "tuple tables of arity > 2", "prefix/postfix tables"],
+    "C10": ["IoInput (BufReader/Seek)", "Graphemes (unicode-segmentation)", "Stream 512-item batch boundary", "bytes feature"],
+    "C12": ["stack depth / stacker::maybe_grow (external)", "mutual recursion beyond one level is by induction over the forwarding contract", "define()'s panic message formatting (entered through the hook under Kani; the real define() is run natively)"],
+    "C13": ["thread clause (no threads in Kani)", "Send/Sync are type-level facts"],
+    "C14": ["regex()", "unicode::ident / keyword beyond ASCII (unicode-ident tables)", "Graphemes", "text parsers bounded to 3 remaining tokens"],
+    "C15": ["configure() inside recursion/choices: by induction (context is a plain reference parameter)"],
+    "C16": ["inner emitted errors are re-homed at the outer cursor (documented TODO in the library); their spans are not asserted"],
+    "C17": ["Rich::label_with / in_context internals", "as_context's decoration of already emitted errors (loop) is only exercised with <= 2 errors"],
+    "C18": ["with_state: the invariant is deliberately not maintained for the outer inspector across with_state (by design of with_state)", "nested_in shares the inspector between outer and inner input (by design)"],
+    "C19": ["N > 3", "Rc/Arc ContainerExactly impls are commented out in the library"],
+    "C20": ["termination / time complexity / stack depth are not decided", "debug_assert progress checks compiled out in driver harnesses", "memoized() (C11 not applicable)"],
+})
